@@ -1,6 +1,6 @@
 (* C15 -- component/transform filters preserve rendering; anchors follow components. *)
 From Coq Require Import QArith Qcanon.
-From U2F Require Import Base.Prelude Geometry.Model Geometry.ModelProofs Geometry.Filters Geometry.FiltersProofs.
+From U2F Require Import Base.Prelude Geometry.Model Geometry.ModelProofs Geometry.Filters Geometry.FiltersProofs Geometry.FlattenProofs.
 Open Scope Qc_scope.
 
 (* Decomposing (fully, or only the glyphs with transformed components) replaces a
@@ -35,3 +35,12 @@ Print Assumptions C15_compensation_keeps_orientation.
 Theorem C15_inverse_is_inverse : forall t, det t <> qc0 -> compose (inverse t) t = aff_id.
 Proof. exact inverse_left. Qed.
 Print Assumptions C15_inverse_is_inverse.
+
+(* FlattenComponentsFilter (nested references replaced by references to the leaves, matrices composed):
+   whenever it succeeds, the flattened glyph resolves -- with the same fuel -- to exactly the same list of
+   contours; for every glyph set with non-singular component matrices and closed contours, any depth *)
+Theorem C15_flattening_preserves_rendering : forall gs g g',
+  wf_glyphset_P gs -> wf_glyph_P g -> flatten_glyph gs g = Some g' ->
+  forall F r, resolve F gs g = Some r -> resolve F gs g' = Some r.
+Proof. exact flatten_render. Qed.
+Print Assumptions C15_flattening_preserves_rendering.
